@@ -109,6 +109,15 @@ def gate():
             for m in FORBIDDEN.finditer(src):
                 line = src.count("\n", 0, m.start()) + 1
                 bad.append("%s:%d: %s" % (p, line, m.group(0)))
+            depth = 0
+            for ln, text in enumerate(src.split("\n"), 1):
+                t = text.strip()
+                if re.match(r"^(Section|Module\s+Type)\s", t):
+                    depth += 1
+                elif re.match(r"^End\s", t) and depth > 0:
+                    depth -= 1
+                elif depth == 0 and re.match(r"^(Variable|Variables|Hypothesis|Hypotheses|Context)\b", t):
+                    bad.append("%s:%d: %s outside a Section" % (p, ln, t.split()[0]))
     return bad
 
 
@@ -314,11 +323,18 @@ def build_harness(name, tags="verif", race=False):
 # --------------------------------------------------------------------------- findings / evidence
 
 def known_findings(pid):
+    """entries of known_findings.json (and known_findings.d/*.json) for this property with status "known"."""
+    items = []
     p = os.path.join(ROOT, "known_findings.json")
-    if not os.path.exists(p):
-        return []
-    data = json.load(open(p))
-    return [f for f in data.get("findings", []) if f.get("property") == pid and f.get("status") == "known"]
+    if os.path.exists(p):
+        items += json.load(open(p)).get("findings", [])
+    d = os.path.join(ROOT, "known_findings.d")
+    if os.path.isdir(d):
+        for fn in sorted(os.listdir(d)):
+            if fn.endswith(".json"):
+                data = json.load(open(os.path.join(d, fn)))
+                items += data.get("findings", []) if isinstance(data, dict) else data
+    return [f for f in items if f.get("property") == pid and f.get("status") == "known"]
 
 
 class Ctx:
